@@ -1,5 +1,6 @@
 pub mod c02;
 pub mod c03;
+pub mod c04;
 pub mod c06;
 pub mod c07;
 pub mod c10;
@@ -16,6 +17,8 @@ pub fn parts_for(property: &str) -> Option<Vec<Box<dyn PartDyn>>> {
     Some(match property {
         "C02" => c02::parts(),
         "C03" => c03::parts(),
+        "C04" => c04::parts(),
+        "C09" => c04::parts_c09(),
         "C06" => c06::parts(),
         "C07" => c07::parts(),
         "C10" => c10::parts(),
@@ -29,4 +32,4 @@ pub fn parts_for(property: &str) -> Option<Vec<Box<dyn PartDyn>>> {
     })
 }
 
-pub const ALL: &[&str] = &["C02", "C03", "C06", "C07", "C10", "C11", "C12", "C14", "C15", "C19", "C20"];
+pub const ALL: &[&str] = &["C02", "C03", "C04", "C06", "C07", "C09", "C10", "C11", "C12", "C14", "C15", "C19", "C20"];
